@@ -315,10 +315,20 @@ def phase_judge(cases, impls, queries, measured, wd: Path, per_shard=8):
 
 
 # ------------------------------------------------------------------ CLI level: hash seeds, argument order, side effects
-def _cli_project(seed: int, i: int, storage: str):
+def _cli_project(seed: int, i: int, storage: str, big: bool = False):
     r = rng_for(seed, PROP, "cli", i)
     proj = oc.gen_project(r, n_files=(5, 8), with_skips=False)
     proj["config"]["dry"]["storage_mode"] = storage
+    if big:
+        # --parallel falls back to the sequential path below 2 x workers files: make the process pool actually run
+        extra = [f"extra/u{k:02d}.py" for k in range(14)]
+        old = proj["paths"]
+        proj["paths"] = sorted(set(old + extra))
+        proj["fs0"] = {str(proj["paths"].index(old[int(k)])): v for k, v in proj["fs0"].items()}
+        for k, p in enumerate(extra):
+            proj["contents"].append([p, [["B", k % 3, f"u{k}"], ["C", k % 2, f"u{k}"], ["U", 0, f"u{k}"]]])
+            proj["fs0"][str(proj["paths"].index(p))] = len(proj["contents"]) - 1
+        proj["dirs"] = sorted(set(proj["dirs"]) | {"extra"})
     return proj
 
 
@@ -377,7 +387,7 @@ def cli_jobs(seed: int, tier: str) -> list:
     for storage in ("memory", "tempfile"):
         for par in (False, True):
             lst = cmds or (["dry", "stringly-typed", "file-placement", "magic-numbers", "nesting", "srp"] if not par else ["dry", "stringly-typed", "nesting"])
-            proj = _cli_project(seed, 200 + k, storage)
+            proj = _cli_project(seed, 200 + k, storage, big=par)
             k += 1
             for cmd in lst:
                 args = ["--config", oc.CONFIG_NAME, cmd, "--format", "json"] + (["--parallel"] if par else [])
@@ -429,21 +439,35 @@ def run(tier: str, seed: int, replay: str | None = None) -> int:
         "order independence is proved under the hypothesis that the duplicate-code and stringly-typed reports are permutation-invariant in their evidence (SQL ORDER BY in the source, text checked by the generated layer); the hypothesis is validated on every run (specification measured on sorted evidence, implementation in processing order)",
         "freedom from side effects on the project tree / TMPDIR / HOME is a runtime observation (snapshots around every in-process call and CLI run), not a theorem; the model's file-system component being untouched by lint operations is proved",
         "independence of PYTHONHASHSEED is observed on CLI runs, not proved (the model has no hash values)",
-        "os.walk order is an oracle: each directory call carries the listing observed at that moment; generated files contain no thailint:/dry: suppression directives (directive caches are outside the model)",
+        "os.walk order is an oracle: each directory call carries the listing observed at that moment",
+        "suppression comments: generated Python files carry `# dry: ignore-block` / `# dry: ignore-next` comments, whose per-run lifetime in DRYRule is modelled (rows that outlive a run lose their ranges: measured with the comments neutralised); `thailint:` directives and the caches behind them (stringly-typed IgnoreChecker._file_content_cache, has_file_ignore reading the disk) are outside the model and absent from generated files",
+        "configuration and .thailintignore are fixed for the life of an object; the process-wide ignore-parser singleton is reset before every fresh baseline object (so a 'fresh object' means one in a fresh process)",
+        "single-shot report measurements memoise the DRY FileAnalyzer.analyze function per (path, content) inside the measuring worker process (harness-side wrapper, nothing under /repo is touched) and use storage_mode memory",
     ]
+    import time as _t
+    t0 = _t.time()
+    phases = chk.extra_cov.setdefault("phase_seconds", {})
     chk.build(["theories/Props/C08.v"], ["OrchHistGen"], known_v=["theories/Props/C08Known.v"])
+    phases["build"] = round(_t.time() - t0, 1)
     scale = chk.budget_scale()
     n = (120 if tier == "quick" else 1400) * scale
+    n = min(n, int(os.environ.get("VERIF_CASES_CAP", n)))   # self-test runs on mutated copies use a smaller budget
     max_ops = 12 if tier == "quick" else 16
     if replay:
-        rc = json.loads(Path(replay).read_text())["violation"]["case"]
-        cases = [{"i": "replay", "proj": rc["proj"], "history": rc["history"]}]
-        cjobs = []
+        rc = json.loads(Path(replay).read_text())["violation"].get("case", {})
+        if "proj" in rc:
+            cases, cjobs = [{"i": "replay", "proj": rc["proj"], "history": rc["history"]}], []
+        else:   # a command-line level observation: re-run the command-line scenarios
+            cases, cjobs = [], cli_jobs(seed, tier)
     else:
         cases = corpus_cases() + gen_cases(seed, n, max_ops)
         cjobs = cli_jobs(seed, tier)
+    t1 = _t.time()
     impls = pool_map(run_impl, cases, procs=8)
+    phases["histories_on_implementation"] = round(_t.time() - t1, 1)
+    t1 = _t.time()
     cli_obs = pool_map(cli_job, cjobs, procs=8, chunks=1) if cjobs else []
+    phases["cli_runs"] = round(_t.time() - t1, 1)
     ok_idx = [i for i, im in enumerate(impls) if not im["error"]]
     for i, im in enumerate(impls):
         if im["error"]:
@@ -452,9 +476,15 @@ def run(tier: str, seed: int, replay: str | None = None) -> int:
     with scratch_dir("tv-c08-coq-") as wd:
         try:
             sub_c, sub_i = [cases[i] for i in ok_idx], [impls[i] for i in ok_idx]
+            t1 = _t.time()
             queries = phase_queries(sub_c, sub_i, wd)
+            phases["coq_queries"] = round(_t.time() - t1, 1)
+            t1 = _t.time()
             measured = pool_map(measure_queries, [(c["proj"], q) for c, q in zip(sub_c, queries)], procs=8)
+            phases["report_measurements"] = round(_t.time() - t1, 1)
+            t1 = _t.time()
             vs = phase_judge(sub_c, sub_i, queries, measured, wd)
+            phases["coq_judge"] = round(_t.time() - t1, 1)
             verdicts = dict(zip(ok_idx, vs))
             unmeasurable = sum(1 for ms in measured for m in ms if isinstance(m, dict))
             if unmeasurable:
@@ -484,15 +514,25 @@ def run(tier: str, seed: int, replay: str | None = None) -> int:
             chk.violation({"reason": f"lint call {si} had a side effect: {what}", "case": payload})
         tempfile_mode = case["proj"]["config"]["dry"]["storage_mode"] == "tempfile"
         for si, what in impl["tmp_left"]:
-            if tempfile_mode and re.fullmatch(r"created tmp[^/]*\.db", what) and ops[si][0] not in ("LintFile",):
-                # the DRY tempfile database outlives the run because the storage survives finalize()
-                chk.known_finding("q_dry_keeps_storage", {"observed": f"after call {si}: TMPDIR {what}", **payload})
-            elif tempfile_mode and re.fullmatch(r"(created|modified) tmp[^/]*\.db(-journal)?", what):
-                chk.known_finding("q_dry_keeps_storage", {"observed": f"after call {si}: TMPDIR {what}", **payload})
+            if tempfile_mode and re.fullmatch(r"(created|modified) tmp[^/]*\.db(-journal)?", what):
+                # the DRY tempfile database outlives the call: after a finalizing call because the storage survives
+                # finalize(), after a bare single-file call because its evidence is left pending
+                bare = ops[si][0] in ("LintFile", "ApiFile")
+                chk.known_finding("q_lintfile_leaves_evidence" if bare else "q_dry_keeps_storage",
+                                  {"observed": f"after call {si} ({ops[si][0]}): TMPDIR {what}", "history": case["history"], "paths": case["proj"]["paths"]})
             else:
                 chk.violation({"reason": f"lint call {si} left something in TMPDIR: {what}", "case": payload})
         ver = verdicts.get(i)
         if ver is None:
+            # the model could not be evaluated (a generated item or proof broke): plain differential oracle on what every
+            # quirk vector agrees on - the per-file findings of the used and of the fresh object
+            for k in lint_steps:
+                a = sorted((v for v in impl["impl"][k] if oc.kind_of(v[0], v[4]) is None), key=repr)
+                b = sorted((v for v in impl["fresh"][k] if oc.kind_of(v[0], v[4]) is None), key=repr)
+                if a != b:
+                    chk.violation({"reason": "per-file findings of a used object differ from those of a fresh object (model not evaluated)", "step": k, "op": ops[k],
+                                   "used_only": [v for v in a if v not in b][:4], "fresh_only": [v for v in b if v not in a][:4], "case": payload})
+                    break
             continue
         if len(ver) != len(ops):
             chk.broken.append(f"Model:judge returned {len(ver)} rows for {len(ops)} operations")
